@@ -5,6 +5,7 @@ import (
 	"bytes"
 	"fmt"
 	"io"
+	"math"
 	"strconv"
 	"strings"
 	"sync"
@@ -334,7 +335,13 @@ func (p *Parser) csiDispatch(r rune) {
 			param = append(param, ps)
 			ps = 0
 		default:
-			// All of our non ';' and ':' bytes are a digit.
+			// All of our non ';' and ':' bytes are a digit. A
+			// parameter which is too large for an int saturates, it
+			// never wraps around to a negative number
+			if ps > (math.MaxInt32-9)/10 {
+				ps = math.MaxInt32
+				continue
+			}
 			ps *= 10
 			ps += int(b) - 0x30
 		}
